@@ -113,7 +113,7 @@ def experiments(seed, tier, rng):
                 def fresh(build=build, variant=variant):
                     x = build(variant)[1][0]
                     return build(0, input=x)[0]
-                line = 'C14 retarget %s %s %s %s' % (cls, il(cfg), il(gid[g] for g in pre), il(gid[g] for g in pub))
+                line = 'C14 retarget %s %s %s %s %s' % (cls, il(cfg), il(gid[g] for g in pre), il(gid[g] for g in pub), KINDS[variant])
                 E.append(Sw('set_input', cls, label, table, line, make, switch, fresh, pre, pub, KINDS[variant]))
         # user subclass that adds nothing
         if cls in SUBCLASSED:
@@ -179,7 +179,7 @@ def experiments(seed, tier, rng):
                 def fresh(key=key):
                     return ts.Epochs(st[key], duration=du[key], time_unit='s')
                 nm = ('sub:' if sub else '') + 'Epochs'
-                line = 'C14 slice %s - %s' % (nm, il([0] if pre else []))
+                line = 'C14 slice %s - %s %s' % (nm, il([0] if pre else []), str(key).replace(' ', '').replace('slice', 'k'))
                 E.append(Sw('slice', nm, 'key=%s' % (key,), table, line, make, switch, fresh, pre, ['duration'], 'slice'))
     return E
 
